@@ -9,7 +9,7 @@ V=/verif; S=$V/seeded/$id
 export GOFLAGS=-mod=mod GOPROXY=off GOSUMDB=off GOTOOLCHAIN=local
 tmp=$(mktemp -d /dev/shm/seed-XXXXXX)
 trap 'git -C /repo worktree remove --force $tmp/wt >/dev/null 2>&1; rm -rf $tmp' EXIT
-git -C /repo worktree add -q --detach $tmp/wt HEAD || exit 2
+git -C /repo worktree add -q --detach $tmp/wt ${SEED_BASE:-HEAD} || exit 2
 if ! git -C $tmp/wt apply $S/patch.diff; then echo "$id: patch does not apply"; exit 2; fi
 ( cd $tmp/wt && go build ./... ) || { echo "$id: does not compile"; exit 2; }
 t=$( cd $tmp/wt && go test -vet=off -count=1 ./... 2>&1 ); if echo "$t" | grep -q "^FAIL\|^---"; then echo "$id: repository tests FAIL with the change"; echo "$t" | tail -5; exit 2; fi
@@ -24,7 +24,7 @@ prop=$(python3 -c "import json;print(json.load(open('$S/meta.json'))['property']
 checks="$@"; [ -z "$checks" ] && checks="$prop"
 mkdir -p $tmp/vd
 for c in $checks; do
-  out=$(VERIF_REPO=$tmp/wt VERIF_DIR=$tmp/vd $V/bin/vcheck $c --tier $tier 2>&1); rc=$?
+  out=$(VERIF_REPO=$tmp/wt VERIF_DIR=$tmp/vd ${VCHECK:-$V/bin/vcheck} $c --tier $tier 2>&1); rc=$?
   first=$(echo "$out" | grep -A2 '^VIOLATION' | sed -n 2,3p | tr '\n' ' ' | cut -c1-260)
   echo "$id	$c	$tier	rc=$rc	$(echo "$out" | grep -c '^VIOLATION') violations	$first" | tee -a $V/seeded/RESULTS.raw
 done
